@@ -262,9 +262,13 @@ def rule_fee_tables(ctx, rep):
             want_f = "unbounded" if bounded_true else "unknown-bound"
             def cls_(x):
                 return "unknown-bound" if x[0] is True else ("unbounded" if x == (False, MAXU) else f"known {x[1]}")
-            rep.check(cls_(gt) == want_t and cls_(gf) == want_f, rule, f"Fee {opsym} vs {kind} ({pos})", where,
-                      {"true": cls_(gt), "false": cls_(gf)}, {"true": want_t, "false": want_f},
-                      why="documented heuristic: a comparison with a value the tool cannot evaluate bounds the fee on the side an upper bound would")
+            # the documented heuristic (an 'unknown bound' on the side an upper bound would be) or no information at all are both
+            # consistent with C09; a *known* bound, or a bound on the wrong side, is not
+            ok_t = cls_(gt) in ((want_t, "unbounded") if bounded_true else ("unbounded",))
+            ok_f = cls_(gf) in (("unbounded",) if bounded_true else (want_f, "unbounded"))
+            rep.check(ok_t and ok_f, rule, f"Fee {opsym} vs {kind} ({pos})", where,
+                      {"true": cls_(gt), "false": cls_(gf)}, {"true": want_t + " or unbounded" if bounded_true else want_t, "false": want_f if bounded_true else want_f + " or unbounded"},
+                      why="a comparison with a value the tool cannot evaluate may bound the fee only on the side an upper bound would, and never by a known constant")
     # comparisons that do not involve the fee
     for seq in (["txn Amount", "int 5", "<"], ["int 1", "int 2", "=="], ["txn Fee", "int 5", "+"], ["txn Fee", "!"], ["gtxn 1 Fee", "int 5", "<"]):
         v, _, _ = b.operand(seq)
